@@ -5,7 +5,7 @@
 # recorder and the same decorated operations equals what it stores on a fresh recorder (same keys, same data, same metadata apart from id,
 # duration and timestamp); every run that starts a recording finalises it exactly once (saved or aborted); the incomplete / exception flags
 # follow the termination mode.
-# Bound: 10 run kinds (returns / raises / raises AssertionError / returns while its caller handles an exception / interrupted, with outputs before the end, extractor ok / raising / junk, discard, force with rate 0,
+# Bound: 11 run kinds (an unforced run of a rate-0 class, returns / raises / raises AssertionError / returns while its caller handles an exception / interrupted, with outputs before the end, extractor ok / raising / junk, discard, force with rate 0,
 # nested input inside input), every sequence of length <= 3 over them.  exit 0 clean, 1 violated (prints the case).
 import itertools
 import json
@@ -35,7 +35,7 @@ class Audit(InMemoryTapeCassette):
         self.aborted.append(r.id); return super(Audit, self).abort_recording(r)
 
 
-KINDS = ['ret', 'raise', 'interrupt', 'ext_raises', 'ext_junk', 'discard', 'force0', 'nested', 'assert', 'ret_in_except']
+KINDS = ['ret', 'raise', 'interrupt', 'ext_raises', 'ext_junk', 'discard', 'force0', 'nested', 'assert', 'ret_in_except', 'rate0']
 
 
 def make(recorder):
@@ -82,7 +82,8 @@ def make(recorder):
     class Rate0(Service):
         @recorder.operation(metadata_extractor=extractor)
         def execute(self, kind):
-            recorder.force_sample_recording()
+            if kind == 'force0':
+                recorder.force_sample_recording()          # 'rate0': the same class, not forced - never kept, whatever ran before
             self.send(self.fetch(kind)); return 0
     return Service, Rate0, state
 
@@ -91,7 +92,7 @@ def run_one(recorder, classes, kind, cas):
     Service, Rate0, state = classes
     state['kind'] = kind
     before = (len(cas.created), len(cas.saved), len(cas.aborted))
-    svc = Rate0() if kind == 'force0' else Service()
+    svc = Rate0() if kind in ('force0', 'rate0') else Service()
     out = None
     try:
         if kind == 'ret_in_except':
